@@ -3,19 +3,31 @@ package main
 // Small helpers shared by the wire-level oracles c16sets / c14namespace / c17limits.
 
 import (
+	"context"
 	"regexp"
 	"strconv"
 	"strings"
+	"time"
 )
 
-func regexpMust(s string) *regexp.Regexp { return regexp.MustCompile(s) }
+// awSessionsQuiesce waits until every session has applied the state updates queued for it so far, without
+// flushing the connector. Needed before a session selects a mailbox another session has just written to:
+// gluon queues the EXISTS update after the writer's reply, and a SELECT that slips in between loads the
+// message from the database and then gets the EXISTS on top (a C01/C02 matter, not what these oracles test).
+func awSessionsQuiesce(s *Sys) error {
+	ctx, c := context.WithTimeout(context.Background(), 20*time.Second)
+	defer c()
+	return s.Server.VerifBarrier(ctx, s.UserID)
+}
 
-var reListLine = regexp.MustCompile(`^\* (?:LIST|LSUB) \(([^)]*)\) (NIL|"(?:[^"\\]|\\.)*") (.*)$`)
+func awRegexpMust(s string) *regexp.Regexp { return regexp.MustCompile(s) }
 
-// parseListLine parses `* LIST (atts) "d" "name"` (or LSUB); the name is unquoted but still in
+var awReListLine = regexp.MustCompile(`^\* (?:LIST|LSUB) \(([^)]*)\) (NIL|"(?:[^"\\]|\\.)*") (.*)$`)
+
+// awParseListLine parses `* LIST (atts) "d" "name"` (or LSUB); the name is unquoted but still in
 // modified UTF-7.
-func parseListLine(u string) (atts, name string, ok bool) {
-	m := reListLine.FindStringSubmatch(u)
+func awParseListLine(u string) (atts, name string, ok bool) {
+	m := awReListLine.FindStringSubmatch(u)
 	if m == nil {
 		return "", "", false
 	}
@@ -27,14 +39,14 @@ func parseListLine(u string) (atts, name string, ok bool) {
 }
 
 var (
-	reElapsed      = regexp.MustCompile(`completed in [0-9.]+ ?[a-zA-Zµ]*\.?`)
-	reUIDValInCode = regexp.MustCompile(`(APPENDUID|COPYUID) \d+`)
+	awReElapsed      = regexp.MustCompile(`completed in [0-9.]+ ?[a-zA-Zµ]*\.?`)
+	awReUIDValInCode = regexp.MustCompile(`(APPENDUID|COPYUID) \d+`)
 )
 
-// canonTagged renders a tagged completion without its tag and without the parts that differ from run
+// awCanonTagged renders a tagged completion without its tag and without the parts that differ from run
 // to run (elapsed time, UIDVALIDITY values derived from the clock).
-func canonTagged(rep Reply) string {
+func awCanonTagged(rep Reply) string {
 	t := strings.TrimSpace(strings.TrimPrefix(rep.Tagged, rep.Tag))
-	t = reElapsed.ReplaceAllString(t, "completed in *")
-	return reUIDValInCode.ReplaceAllString(t, "$1 *")
+	t = awReElapsed.ReplaceAllString(t, "completed in *")
+	return awReUIDValInCode.ReplaceAllString(t, "$1 *")
 }
